@@ -171,7 +171,9 @@ Fixpoint trim_ows_left (s : str) : str :=
   | c :: r => if is_ows c then trim_ows_left r else s
   | [] => []
   end.
-Definition trim_ows (s : str) : str := rev (trim_ows_left (rev (trim_ows_left s))).
+(* reversal by accumulation: List.rev is quadratic, and header values may be tens of kilobytes long *)
+Definition frev (s : str) : str := rev_append s [].
+Definition trim_ows (s : str) : str := frev (trim_ows_left (frev (trim_ows_left s))).
 (* headerNewlineToSpace.Replace + textproto.TrimString *)
 Definition sanitize (v : str) : str := trim_ows (map nl_to_space v).
 
